@@ -70,7 +70,7 @@ ObsReset ==
        /\ wt' = [w \in W |-> 0] /\ wstart' = [w \in W |-> 0] /\ wlive' = [w \in W |-> TRUE] /\ doneAt' = -1
        /\ eclosed' = FALSE /\ mpc' = "select" /\ errs' = 0 /\ result' = "none"
        /\ cstat' = [i \in 1..sc.n |-> "none"]
-       /\ startedLive' = 0 /\ lastStartIdx' = 0 /\ orderOK' = TRUE /\ earlyFeeds' = 0 /\ lateCancelledOK' = TRUE
+       /\ startedLive' = 0 /\ startAt' = [i \in 1..MaxN |-> -1] /\ orderOK' = TRUE /\ earlyFeeds' = 0 /\ lateCancelledOK' = TRUE
        /\ lastFailSeen' = FALSE /\ lastFeed' = -1
   /\ retSeen' = FALSE /\ l' = l + 1
 
